@@ -35,7 +35,9 @@ def gen_and_run(tier, seed):
         base += b4[:60000]
     # node classes with user-defined __bool__/__len__/__eq__ (a sixth of the fault-free cases)
     nb = len(base)
-    base += [dict(c, adv=gen.ADV_KINDS[i % len(gen.ADV_KINDS)]) for i, c in enumerate(base[:nb]) if i % 6 == 5]
+    # the kind is chosen by a running count: i % n under the selection stride reaches only some residues
+    base += [dict(c, adv=gen.ADV_KINDS[k % len(gen.ADV_KINDS)])
+             for k, c in enumerate([c for i, c in enumerate(base[:nb]) if i % 6 == 5])]
     obs0 = mc.run_impl(base, PROP)
     # single faults: parent assignments at every position (post hooks: no rollback); a sample for the others
     sp = [(c, o) for c, o in zip(base, obs0) if c["op"][0] == "set_parent"]
